@@ -65,6 +65,60 @@ class HookTap:
         return {i for i, _ in self.events}
 
 
+class HookCoverage:
+    """sys.monitoring LINE coverage restricted to lsprotocol/_hooks.py (DESIGN 5.3a)."""
+
+    TOOL = 2
+
+    def __init__(self):
+        self.lines = set()
+        self.on = False
+
+    def start(self):
+        try:
+            mon = sys.monitoring
+            mon.use_tool_id(self.TOOL, "vf-hookcov")
+        except Exception:
+            return False
+        seen = self.lines
+
+        def on_line(code, lineno):
+            if not code.co_filename.endswith("_hooks.py"):
+                return mon.DISABLE
+            seen.add(lineno)
+            return mon.DISABLE  # one hit per location is enough
+
+        mon.register_callback(self.TOOL, mon.events.LINE, on_line)
+        mon.set_events(self.TOOL, mon.events.LINE)
+        self.on = True
+        return True
+
+    def stop(self):
+        if self.on:
+            sys.monitoring.set_events(self.TOOL, 0)
+            sys.monitoring.free_tool_id(self.TOOL)
+            self.on = False
+
+    @staticmethod
+    def all_lines(module):
+        import types as _t
+
+        out = set()
+
+        def walk(code):
+            for _, _, ln in code.co_lines():
+                if ln is not None and ln != code.co_firstlineno:
+                    out.add(ln)
+            for c in code.co_consts:
+                if isinstance(c, _t.CodeType):
+                    walk(c)
+
+        for obj in vars(module).values():
+            if isinstance(obj, _t.FunctionType) and obj.__module__ == module.__name__:
+                walk(obj.__code__)
+        return out
+
+
 class Py:
     def __init__(self, pkg_root, mm, tap=False):
         self.mm = mm
